@@ -359,6 +359,15 @@ def install(E):
             return [(P, Opaque("items", tuple(Tup([I(k), x]) for k, x in enumerate(items))))]
         return [(P, Opaque("enumerate", (it,)))]
 
+    @reg("divmod", True)
+    def _divmod(E, P, ctx, a, b):
+        import ast as _ast
+        q = E.binop(_ast.FloorDiv(), a, b, P, ctx)
+        r = E.binop(_ast.Mod(), a, b, P, ctx)
+        if len(q) != 1 or len(r) != 1:
+            raise Unsupported("divmod forks")
+        return [(P, Tup([q[0][1], r[0][1]]))]
+
     @reg("zip", True)
     def _zip(E, P, ctx, *its):
         cols = [E.iter_items(P, it) for it in its]
@@ -555,6 +564,15 @@ def install(E):
                 for key, sort, val in (("%s.$lastpos" % cls, IntS, n), ("%s.$lastlist" % cls, RefS, lst.t)):
                     arr = E.heap_array(P, key, sort)
                     P.heap[key] = z3.Store(arr, x.t, val)
+            # ghost, per list ROLE: TYPES[cls]["$ghost_rolepos"] = {role: field} makes objects of cls remember the index of
+            # their latest append to a list of that role (Variable.$vpos: position in the `vars` list of its block)
+            if lst.ekind.startswith("ref:") and "@" in lst.ekind and isinstance(x, Ref):
+                cls, role = lst.ekind[4:].split("@", 1)
+                fld = (E.types.get(cls, {}).get("$ghost_rolepos") or {}).get(role)
+                if fld:
+                    key = "%s.%s" % (cls, fld)
+                    P.heap[key] = z3.Store(E.heap_array(P, key, IntS), x.t, n)
+                    P.written.add(key)
             if lst.ekind == "dt":
                 # ghost: per list of instants, the index at which an instant was appended last (`pos_in(lst, t)` in contract
                 # text) - replaces the existential in "every qualifying boundary IS listed".  A fresh row with point-wise
